@@ -23,8 +23,10 @@ def measure(rec, cls, detail, A, fro2=None, trace=None, pow2=0):
     n = A.shape[0]
     t = rec.new("hessenbergize", cls, detail)
     A0 = A.copy()
-    Pq, Hq = L.hess.hessenbergize(q_from_float(A * 2.0 ** pow2))
+    Aq_ = q_from_float(A * 2.0 ** pow2)
+    Pq, Hq = L.hess.hessenbergize(Aq_)
     Pf, Hf = q_to_float(np.asarray(Pq)), q_to_float(np.asarray(Hq)) * 2.0 ** -pow2
+    A0 = q_to_float(Aq_) * 2.0 ** -pow2          # the matrix the caller holds AFTER the call is the one the contract speaks of
     rec.eqint(t, "Shapes", [list(Pf.shape[:2]), list(Hf.shape[:2])], [[n, n], [n, n]])
     if list(Pf.shape[:2]) != [n, n] or list(Hf.shape[:2]) != [n, n]:
         return
